@@ -282,6 +282,8 @@ MACHINE = {
     "C14": P("new_cyclic", [F_ALL, F_NOFIN], weights={"newcyc": 16, "up": 8, "wclone": 4}, scripts_p=1.0, fault_p=0.4, kinds=("body", "trace", "fin"),
              nontrivial="A", auto_p=0.9),
     "C15": P("auto-collect policy", [F_ALL, F_DEFAULT], weights={"new": 20, "cfg": 8, "drop": 14}, auto_p=1.0, nontrivial="thr", **NOPANIC),
+    "C16": P("counts saturate", [F_ALL, F_NOFIN], weights={"clone": 10, "up": 8, "down": 8, "wclone": 6, "collect": 8}, fault_p=0.0, nontrivial="panicret",
+             bulk_p=0.9),
 }
 
 
@@ -290,6 +292,7 @@ def profile_for(prop, feat):
     kw = {k: spec[k] for k in ("weights", "fault_p", "two_faults_p", "scripts_p", "kinds", "auto_p") if k in spec}
     p = gen.Profile(prop, feat, **kw)
     p.panic_p = spec.get("panic_p", 0.04)
+    p.bulk_p = spec.get("bulk_p", 0.0)
     p.cb_weights = spec.get("cb_weights", {})
     return p
 
@@ -298,6 +301,8 @@ def nontrivial(prop, model_lines):
     key = MACHINE[prop].get("nontrivial", "DX")
     if key in ("some", "unwrapped"):
         return any(l.startswith(key) for l in model_lines)
+    if key == "panicret":
+        return any(l.startswith("panic") for l in model_lines)
     if key == "thr":
         thrs = set(re.findall(r"thr=(\d+)", "\n".join(model_lines)))
         return len(thrs) > 1
@@ -519,6 +524,12 @@ def check_machine(prop, tier, seed, rep):
         nprog, chunk, budget_search = 12000, 3000, 1500
     samples = []
     hist = {}
+    extra_cov = {}
+    if prop in EXTRA_STEPS and consts_line:
+        try:
+            extra_cov = EXTRA_STEPS[prop](prop, tier, seed, rep, vals_line=consts_line)
+        except Exception as ex:  # the probe itself broke: the tie is no longer checked
+            rep.violation("probe-broken", ["# " + str(ex)], "probe for %s failed to run: %s" % (prop, ex), False, signature="probe")
     driver_ok = os.path.exists(corr.DRIVER) and (a is None or a["build_ok"] or lake_build(["driver"])[0])
     for bi, (feat, release) in enumerate(builds):
         ok, log = cargo_build(feat, release)
@@ -573,8 +584,166 @@ def check_machine(prop, tier, seed, rep):
         "search_programs": stats["search_programs"],
         "known_findings_printed": rep.known,
     })
+    cov.update(extra_cov)
+    if extra_cov.get("extra_evaluations"):
+        cov["evaluations"] += extra_cov["extra_evaluations"]
     return cov
 
+
+# ------------------------------------------------------------------------------------ extra probes
+
+def words_probe(prop, tier, seed, rep, vals_line):
+    """C16: every counter-word operation on all 2^16 words, compiled crate vs Lean model, plus the
+    statement of C16 evaluated directly on the crate's table (model-independent)."""
+    ok, log = cargo_build(F_ALL)
+    if not ok:
+        raise RuntimeError("cargo build failed: " + log[-500:])
+    rc1, impl = sh([corr.harness_bin(F_ALL), "words"], timeout=600)
+    rc2, model = sh([corr.DRIVER, "words"], timeout=600)
+    if rc1 != 0 or rc2 != 0:
+        raise RuntimeError("words mode failed (harness rc=%s, driver rc=%s)" % (rc1, rc2))
+    il, ml = impl.splitlines(), model.splitlines()
+    vals = extract_consts.extract(REPO)
+    M = vals["counterMask"] + 1
+    MAX = vals["rcMax"]
+    WM = vals["weakAccessibleMask"]
+    WMAX = vals["weakMax"]
+    bad = []
+    for line in il:
+        t = line.split()
+        op = t[0]
+        if op in ("ic", "dc"):
+            w, nw, failed = int(t[1]), int(t[2]), t[3] == "1"
+            rc, flags = w % M, w // M
+            if op == "ic":
+                exp = (w, True) if rc == MAX else (w + 1, False)
+            else:
+                exp = (w, True) if rc == 0 else (w - 1, False)
+            if (nw, failed) != exp or nw // M != flags or nw % M == M - 1:
+                bad.append(line)
+        elif op == "it":
+            w, nw, failed = int(t[1]), int(t[2]), t[3] == "1"
+            tc, mk = w % M, w // M
+            exp = (w, True) if tc == MAX else (w + 1, False)
+            if (nw, failed) != exp or nw // M != mk:
+                bad.append(line)
+        elif op in ("sf1", "sf0", "sm1", "sm0"):
+            w, nw = int(t[1]), int(t[2])
+            if nw % M != w % M:
+                bad.append(line)
+        elif op in ("iw", "dw"):
+            w, nw, failed = int(t[1]), int(t[2]), t[3] == "1"
+            cnt, acc = w % WM, w // WM
+            if op == "iw":
+                exp = (w, True) if cnt == WMAX else (w + 1, False)
+            else:
+                exp = (w, True) if cnt == 0 else (w - 1, False)
+            if (nw, failed) != exp or nw // WM != acc:
+                bad.append(line)
+    cov = {"word_table_lines": len(il), "word_table_exhaustive": True, "extra_evaluations": len(il),
+           "word_table_rule_violations": len(bad)}
+    if bad:
+        rep.violation("impl-vs-property", ["# counter-word operation violating C16 (op word newword failed ...):"] + ["# " + b for b in bad[:20]],
+                      "the compiled crate's counter-word table violates the saturation / no-spill rule on %d words, e.g. `%s`" % (len(bad), bad[0]),
+                      True, signature="words-rule")
+    if il != ml:
+        first = next((i for i in range(min(len(il), len(ml))) if il[i] != ml[i]), min(len(il), len(ml)))
+        detail = "exhaustive word correspondence `Bits` broke at line %d:\nmodel: %s\nimpl : %s" % (
+            first, ml[first] if first < len(ml) else None, il[first] if first < len(il) else None)
+        if not bad:
+            rep.violation("model-disagreement", ["# " + x for x in detail.splitlines()], detail, False, signature="corr:words")
+        cov["word_table_mismatch_at"] = first
+    return cov
+
+
+def policy_probe(prop, tier, seed, rep, vals_line):
+    """C15: Config::adjust / should_collect on detached Config+State (hook) vs Policy.adjustF / shouldCollect,
+    and the statement of C15 evaluated directly on the crate's answers."""
+    import struct
+    ok, log = cargo_build(F_ALL)
+    if not ok:
+        raise RuntimeError("cargo build failed: " + log[-500:])
+    vals = extract_consts.extract(REPO)
+    D = vals["defaultThr"]
+    rng = random.Random(seed * 77 + 5)
+    n = 40000 if tier == "quick" else 400000
+    lines = []
+    pcts = [int(x, 16) for x in gen.PCTS]
+
+    def rnd_pct():
+        c = rng.random()
+        if c < 0.4:
+            return rng.choice(pcts)
+        if c < 0.7:
+            return struct.unpack(">Q", struct.pack(">d", rng.random()))[0]
+        if c < 0.85:
+            return struct.unpack(">Q", struct.pack(">d", rng.choice([1, 3, 5, 7]) / (1 << rng.randrange(1, 12))))[0]
+        return rng.randrange(0, 0x3FF0000000000001)   # any bit pattern in [0, 1]
+    for i in range(n):
+        if i % 4 != 3:
+            k = rng.randrange(0, 40)
+            thr = D << k
+            c = rng.random()
+            if c < 0.3:
+                alloc = max(0, thr + rng.randrange(-3, 4))
+            elif c < 0.5:
+                alloc = max(0, thr // 2 + rng.randrange(-3, 4))
+            elif c < 0.7:
+                alloc = rng.randrange(0, thr * 4 + 1)
+            elif c < 0.9:
+                alloc = max(0, thr // 10 + rng.randrange(-5, 6))
+            else:
+                alloc = rng.randrange(0, 1 << 50)
+            lines.append("adjust %d %x %d" % (thr, rnd_pct(), alloc))
+        else:
+            thr = D << rng.randrange(0, 20)
+            bt = rng.choice(["none", "1", "2", "5", "100"])
+            alloc = max(0, thr + rng.randrange(-2, 3))
+            lines.append("should %d %d %s %d %d" % (rng.randrange(2), thr, bt, alloc, rng.randrange(0, 8)))
+    text = "\n".join(lines) + "\n"
+    p1 = subprocess.run([corr.harness_bin(F_ALL), "policy"], input=text, capture_output=True, text=True, timeout=1200)
+    p2 = subprocess.run([corr.DRIVER, "policy"], input=text, capture_output=True, text=True, timeout=1200)
+    if p1.returncode != 0 or p2.returncode != 0:
+        raise RuntimeError("policy mode failed (harness rc=%s, driver rc=%s)" % (p1.returncode, p2.returncode))
+    io, mo = p1.stdout.splitlines(), p2.stdout.splitlines()
+    bad = []
+    mism = []
+    for i, l in enumerate(lines):
+        t = l.split()
+        a = io[i] if i < len(io) else None
+        b = mo[i] if i < len(mo) else None
+        if a != b:
+            mism.append((l, b, a))
+        if a is None:
+            continue
+        # the statement of C15, evaluated on the crate's own answer
+        if t[0] == "adjust":
+            thr, bits, alloc, r = int(t[1]), int(t[2], 16), int(t[3]), int(a)
+            pct = struct.unpack(">d", struct.pack(">Q", bits))[0]
+            q = r // D if D else 0
+            pow2 = r % D == 0 and q > 0 and (q & (q - 1)) == 0
+            from fractions import Fraction
+            notneedless = (pct == 0.0) or (Fraction(alloc) > Fraction(r) * Fraction(pct)) or (r // 2 <= alloc) or (r == D)
+            if not (pow2 and r >= D and alloc < r and notneedless):
+                bad.append((l, a))
+        else:
+            auto, thr, bt, alloc, buffered = t[1] == "1", int(t[2]), t[3], int(t[4]), int(t[5])
+            exp = auto and (alloc > thr or (bt != "none" and buffered > int(bt)))
+            if (a == "1") != exp:
+                bad.append((l, a))
+    cov = {"policy_inputs": len(lines), "policy_rule_violations": len(bad), "policy_model_mismatches": len(mism), "extra_evaluations": len(lines)}
+    if bad:
+        rep.violation("impl-vs-property", ["# input line -> crate's answer"] + ["# %s -> %s" % x for x in bad[:20]],
+                      "Config::adjust / should_collect violate the documented policy on %d inputs, e.g. `%s` -> %s" % (len(bad), bad[0][0], bad[0][1]),
+                      True, signature="policy-rule")
+    elif mism:
+        detail = "policy correspondence (Policy.adjustF / shouldCollect vs the crate) broke on %d inputs, e.g. `%s`: model %s, crate %s" % (
+            len(mism), mism[0][0], mism[0][1], mism[0][2])
+        rep.violation("model-disagreement", ["# " + detail], detail, False, signature="corr:policy")
+    return cov
+
+
+EXTRA_STEPS = {"C16": words_probe, "C15": policy_probe}
 
 # ------------------------------------------------------------------------------------ entry
 
